@@ -1,4 +1,6 @@
 import DirectVerif.Model.Complex
+import DirectVerif.Lemmas.C02Tensor
+import DirectVerif.Lemmas.C02Sums
 import Mathlib.Data.Complex.Basic
 import Mathlib.Data.Complex.BigOperators
 import Mathlib.Data.Matrix.Mul
@@ -229,6 +231,223 @@ theorem reduce_eq_reduceFibre {P : Type} {c : ℕ} (S y : Fin c → P → ℂ) (
 theorem expand_eq_expandFibre {P : Type} {c : ℕ} (S : Fin c → P → ℂ) (x : P → ℂ) (p : P) :
     (List.ofFn fun i => expand S x i p) = (expandFibre (List.ofFn fun i => ofC (S i p)) (ofC (x p))).map toC := by
   simp [expandFibre, expand, List.map_ofFn, Function.comp_def]
+
+/-! ## the tensor-level operators the driver executes refine to `expand` / `reduce`
+
+`expandOp` / `reduceOp` / `rssSqT` act on flat row-major `Tensor (Cpx ℝ)` with torch broadcasting, `unsqueeze`
+and `alongAxis` sums, the coil axis at an arbitrary position `pre.length` of the shape `pre ++ [c] ++ post`.
+Through the index views `coilFn` (entry `[o, j, i]` ↦ coil `j`, pixel `(o, i)`) and `pixFn` they **are** the
+Finset-indexed `expand` / `reduce` above (`expandOp_refines`, `reduceOp_refines`, proved from the index-form
+lemmas of `Lemmas/C02Tensor.lean`), so adjointness, `R ∘ E = id` and linearity hold for the tensors themselves:
+the inner products are the model's own `cdot` on the flat data. -/
+section TensorLevel
+open DirectVerif.C02T DirectVerif.C02S DirectVerif.TensorLift
+
+/-- coil data / sensitivity maps of shape `pre ++ [c] ++ post` (`Q = prod pre`, `P = prod post`) as a function of
+coil `j` and pixel `(o, i)` -/
+def coilFn (Q c P : ℕ) (t : Tensor (Cpx ℝ)) : Fin c → Fin Q × Fin P → ℂ :=
+  fun j p => toC (t.data.getD (pos3 c P p.1 j p.2) default)
+
+/-- an image of shape `pre ++ post` as a function of the pixel `(o, i)` -/
+def pixFn (Q P : ℕ) (t : Tensor (Cpx ℝ)) : Fin Q × Fin P → ℂ :=
+  fun p => toC (t.data.getD (p.1 * P + p.2) default)
+
+/-- the hypotheses under which the driver calls the coil operators: image `x` of shape `pre ++ post`, coil-shaped
+tensors of shape `pre ++ [c] ++ post`, `dim` naming the coil axis in either Python form -/
+structure CoilAxis (pre post : List ℕ) (d : ℤ) : Prop where
+  unsq : unsqAxis (pre.length + post.length) d = pre.length
+  norm : normAxis (pre.length + 1 + post.length) d = pre.length
+
+theorem CoilAxis.nonneg (pre post : List ℕ) : CoilAxis pre post (pre.length : ℤ) :=
+  ⟨unsqAxis_nonneg _ _, normAxis_nonneg _ _⟩
+
+theorem CoilAxis.neg (pre post : List ℕ) : CoilAxis pre post ((pre.length : ℤ) - ((pre.length + 1 + post.length : ℕ) : ℤ)) := by
+  constructor
+  · have e : ((pre.length : ℤ) - ((pre.length + 1 + post.length : ℕ) : ℤ)) =
+        (pre.length : ℤ) - (((pre.length + post.length : ℕ) : ℤ) + 1) := by push_cast; ring
+    rw [e]; exact unsqAxis_neg _ _ (by omega)
+  · exact normAxis_neg _ _ (by omega)
+
+variable {pre post : List ℕ} {c : ℕ} {d : ℤ}
+
+/-- **refinement (expand)**: the tensor `expand_operator(x, S, d)` the driver computes, read through the index
+view, is `expand` of the views -/
+theorem expandOp_refines (x S : Tensor (Cpx ℝ)) (hx : x.shape = pre ++ post) (hS : S.shape = pre ++ [c] ++ post)
+    (hd : CoilAxis pre post d) :
+    coilFn (prod pre) c (prod post) (expandOp x S d) =
+      expand (coilFn (prod pre) c (prod post) S) (pixFn (prod pre) (prod post) x) := by
+  funext j p
+  obtain ⟨_, _, h⟩ := expandOp_spec x S pre post c d hx hS hd.unsq
+  simp only [coilFn, pixFn, expand, ofC_toC]
+  rw [h p.1 j p.2 p.1.isLt j.isLt p.2.isLt]
+
+theorem list_sum_fin {n : ℕ} (f : ℕ → ℂ) : ((List.range n).map f).sum = ∑ j : Fin n, f j := by
+  rw [list_sum_range_map, Finset.sum_range]
+
+/-- **refinement (reduce)**: likewise `reduce_operator(y, S, d)` is `reduce` of the views -/
+theorem reduceOp_refines (y S : Tensor (Cpx ℝ)) (hy : y.shape = pre ++ [c] ++ post) (hS : S.shape = pre ++ [c] ++ post)
+    (wy : y.data.length = prod y.shape) (wS : S.data.length = prod S.shape) (hd : CoilAxis pre post d) :
+    pixFn (prod pre) (prod post) (reduceOp y S d) =
+      reduce (coilFn (prod pre) c (prod post) S) (coilFn (prod pre) c (prod post) y) := by
+  funext p
+  obtain ⟨_, _, h⟩ := reduceOp_spec y S pre post c d hy hS wy wS hd.norm
+  simp only [pixFn, reduce, coilFn, ofC_toC]
+  rw [h p.1 p.2 p.1.isLt p.2.isLt, toC_sum, List.map_map]
+  exact list_sum_fin (fun j => toC (cmul (Cx.conj (S.data.getD (pos3 c (prod post) p.1 j p.2) default))
+    (y.data.getD (pos3 c (prod post) p.1 j p.2) default)))
+
+/-- the square of `root_sum_of_squares(S, d)` the driver computes is `Σ_j |S_j|²` of the view -/
+theorem rssSqT_refines (S : Tensor (Cpx ℝ)) (hS : S.shape = pre ++ [c] ++ post) (wS : S.data.length = prod S.shape)
+    (hd : CoilAxis pre post d) (p : Fin (prod pre) × Fin (prod post)) :
+    (rssSqT S d).data.getD (p.1 * prod post + p.2) default =
+      ∑ j, Complex.normSq (coilFn (prod pre) c (prod post) S j p) := by
+  obtain ⟨_, _, h⟩ := rssSqT_spec S pre post c d hS wS hd.norm
+  rw [h p.1 p.2 p.1.isLt p.2.isLt, list_sum_range_map, Finset.sum_range]
+  exact Finset.sum_congr rfl fun j _ => modulus_sq_eq_normSq _
+
+/-! ### the model's `cdot` on flat data is the inner product over coils × pixels / over pixels -/
+
+theorem cdot_flat (a b : List (Cpx ℝ)) (N : ℕ) (ha : a.length = N) (hb : b.length = N) :
+    toC (cdot a b) = ∑ k ∈ Finset.range N, conj (toC (a.getD k default)) * toC (b.getD k default) := by
+  rw [cdot_eq_inner, zipWith_eq_range_map _ a b default default N ha hb, list_sum_range_map]
+
+theorem cdot_coil (a b : Tensor (Cpx ℝ)) (Q c P : ℕ) (ha : a.data.length = Q * (c * P)) (hb : b.data.length = Q * (c * P)) :
+    toC (cdot a.data b.data) = ∑ j, ∑ p, conj (coilFn Q c P a j p) * coilFn Q c P b j p := by
+  rw [cdot_flat _ _ _ ha hb, sum_range_pos3, Finset.sum_comm]
+  simp only [Fintype.sum_prod_type, coilFn, pos3]
+  rw [Finset.sum_range]
+  refine Finset.sum_congr rfl fun j _ => ?_
+  rw [Finset.sum_range]
+  refine Finset.sum_congr rfl fun o _ => ?_
+  rw [Finset.sum_range]
+
+theorem cdot_pix (a b : Tensor (Cpx ℝ)) (Q P : ℕ) (ha : a.data.length = Q * P) (hb : b.data.length = Q * P) :
+    toC (cdot a.data b.data) = ∑ p, conj (pixFn Q P a p) * pixFn Q P b p := by
+  rw [cdot_flat _ _ _ ha hb, sum_range_mul]
+  simp only [Fintype.sum_prod_type, pixFn]
+  rw [Finset.sum_range]
+  refine Finset.sum_congr rfl fun o _ => ?_
+  rw [Finset.sum_range]
+
+/-- **adjointness of the tensor-level operators**: `⟪expand_operator(x, S, d), y⟫ = ⟪x, reduce_operator(y, S, d)⟫`
+with both inner products computed by the model's `cdot` (= `complex_dot_product` over all axes) on the flat
+row-major data — arbitrary sensitivity maps, every shape `pre ++ [c] ++ post`, either Python form of `d`. -/
+theorem adjoint_tensor (x y S : Tensor (Cpx ℝ)) (hx : x.shape = pre ++ post) (hy : y.shape = pre ++ [c] ++ post)
+    (hS : S.shape = pre ++ [c] ++ post) (wx : x.data.length = prod x.shape) (wy : y.data.length = prod y.shape)
+    (wS : S.data.length = prod S.shape) (hd : CoilAxis pre post d) :
+    cdot (expandOp x S d).data y.data = cdot x.data (reduceOp y S d).data := by
+  apply toC_injective
+  have hE := (expandOp_spec x S pre post c d hx hS hd.unsq).2.1
+  have hR := (reduceOp_spec y S pre post c d hy hS wy wS hd.norm).2.1
+  rw [cdot_coil _ _ (prod pre) c (prod post) hE (by rw [wy, hy, prod3]),
+    cdot_pix _ _ (prod pre) (prod post) (by rw [wx, hx, prod_append]) hR,
+    expandOp_refines x S hx hS hd, reduceOp_refines y S hy hS wy wS hd]
+  exact adjoint _ _ _
+
+/-! ### a well-formed tensor is determined by its view -/
+
+theorem pix_ext (t t' : Tensor (Cpx ℝ)) (Q P : ℕ) (hs : t.shape = t'.shape) (l : t.data.length = Q * P)
+    (l' : t'.data.length = Q * P) (hv : pixFn Q P t = pixFn Q P t') : t = t' := by
+  obtain ⟨s, D⟩ := t
+  obtain ⟨s', D'⟩ := t'
+  simp only at hs l l'
+  subst hs
+  congr 1
+  apply ext_getD _ _ default (by rw [l, l'])
+  intro k hk
+  rw [l] at hk
+  have hP : 0 < P := Nat.pos_of_ne_zero fun h => by subst h; simp at hk
+  have hq : k / P < Q := Nat.div_lt_of_lt_mul (by rwa [Nat.mul_comm] at hk)
+  have := congrFun hv (⟨k / P, hq⟩, ⟨k % P, Nat.mod_lt _ hP⟩)
+  simp only [pixFn, Nat.div_add_mod'] at this
+  exact toC_injective this
+
+theorem coil_ext (t t' : Tensor (Cpx ℝ)) (Q c P : ℕ) (hs : t.shape = t'.shape) (l : t.data.length = Q * (c * P))
+    (l' : t'.data.length = Q * (c * P)) (hv : coilFn Q c P t = coilFn Q c P t') : t = t' := by
+  obtain ⟨s, D⟩ := t
+  obtain ⟨s', D'⟩ := t'
+  simp only at hs l l'
+  subst hs
+  congr 1
+  apply ext_getD _ _ default (by rw [l, l'])
+  intro k hk
+  rw [l] at hk
+  obtain ⟨o, j, i, ho, hj, hi, rfl⟩ := idx3_decomp k Q c P hk
+  have := congrFun (congrFun hv ⟨j, hj⟩) (⟨o, ho⟩, ⟨i, hi⟩)
+  simp only [coilFn, pos3] at this
+  exact toC_injective this
+
+/-- **`reduce_operator(expand_operator(x, S, d), S, d) = x`** — as tensors (shape and data) — whenever the square of
+`root_sum_of_squares(S, d)` the driver computes is `1` at every pixel -/
+theorem reduce_expand_id_tensor (x S : Tensor (Cpx ℝ)) (hx : x.shape = pre ++ post) (hS : S.shape = pre ++ [c] ++ post)
+    (wx : x.data.length = prod x.shape) (wS : S.data.length = prod S.shape) (hd : CoilAxis pre post d)
+    (hU : ∀ o i, o < prod pre → i < prod post → (rssSqT S d).data.getD (o * prod post + i) default = 1) :
+    reduceOp (expandOp x S d) S d = x := by
+  obtain ⟨hEs, hEl, _⟩ := expandOp_spec x S pre post c d hx hS hd.unsq
+  have wE : (expandOp x S d).data.length = prod (expandOp x S d).shape := by rw [hEl, hEs, prod3]
+  obtain ⟨hRs, hRl, _⟩ := reduceOp_spec (expandOp x S d) S pre post c d hEs hS wE wS hd.norm
+  apply pix_ext _ _ (prod pre) (prod post) (by rw [hRs, hx]) hRl (by rw [wx, hx, prod_append])
+  rw [reduceOp_refines _ S hEs hS wE wS hd, expandOp_refines x S hx hS hd]
+  apply reduce_expand_id
+  intro p
+  rw [← rssSqT_refines S hS wS hd p]
+  exact hU p.1 p.2 p.1.isLt p.2.isLt
+
+/-- `a·x + x'` on tensors, with the model's `cmul` and `+` -/
+def axpy (a : Cpx ℝ) (x x' : Tensor (Cpx ℝ)) : Tensor (Cpx ℝ) :=
+  ⟨x.shape, List.zipWith (fun u v => cmul a u + v) x.data x'.data⟩
+
+theorem axpy_getD (a : Cpx ℝ) (x x' : Tensor (Cpx ℝ)) (N k : ℕ) (l : x.data.length = N) (l' : x'.data.length = N) (hk : k < N) :
+    toC ((axpy a x x').data.getD k default) = toC a * toC (x.data.getD k default) + toC (x'.data.getD k default) := by
+  simp only [axpy]
+  rw [zipWith_eq_range_map _ _ _ default default N l l']
+  simp [List.getD_eq_getElem?_getD, List.getElem?_range hk, toC_add, cmul_eq]
+
+theorem pixFn_axpy (a : Cpx ℝ) (x x' : Tensor (Cpx ℝ)) (Q P : ℕ) (l : x.data.length = Q * P) (l' : x'.data.length = Q * P) :
+    pixFn Q P (axpy a x x') = toC a • pixFn Q P x + pixFn Q P x' := by
+  funext p
+  simp only [pixFn, Pi.add_apply, Pi.smul_apply, smul_eq_mul]
+  exact axpy_getD a x x' _ _ l l' (idx2_lt _ _ _ _ p.1.isLt p.2.isLt)
+
+theorem coilFn_axpy (a : Cpx ℝ) (y y' : Tensor (Cpx ℝ)) (Q c P : ℕ) (l : y.data.length = Q * (c * P))
+    (l' : y'.data.length = Q * (c * P)) :
+    coilFn Q c P (axpy a y y') = toC a • coilFn Q c P y + coilFn Q c P y' := by
+  funext j p
+  simp only [coilFn, Pi.add_apply, Pi.smul_apply, smul_eq_mul]
+  exact axpy_getD a y y' _ _ l l' (pos3_lt _ _ _ _ _ _ p.1.isLt j.isLt p.2.isLt)
+
+/-- **`expand_operator` is ℂ-linear in the image, at tensor level**: `E(a·x + x') = a·E(x) + E(x')` -/
+theorem expandOp_linear (a : Cpx ℝ) (x x' S : Tensor (Cpx ℝ)) (hx : x.shape = pre ++ post) (hx' : x'.shape = pre ++ post)
+    (hS : S.shape = pre ++ [c] ++ post) (wx : x.data.length = prod x.shape) (wx' : x'.data.length = prod x'.shape)
+    (hd : CoilAxis pre post d) :
+    expandOp (axpy a x x') S d = axpy a (expandOp x S d) (expandOp x' S d) := by
+  have lx : x.data.length = prod pre * prod post := by rw [wx, hx, prod_append]
+  have lx' : x'.data.length = prod pre * prod post := by rw [wx', hx', prod_append]
+  obtain ⟨s1, l1, _⟩ := expandOp_spec (axpy a x x') S pre post c d hx hS hd.unsq
+  obtain ⟨s2, l2, _⟩ := expandOp_spec x S pre post c d hx hS hd.unsq
+  obtain ⟨s3, l3, _⟩ := expandOp_spec x' S pre post c d hx' hS hd.unsq
+  apply coil_ext _ _ (prod pre) c (prod post) (by rw [s1]; exact s2.symm) l1 (by simp [axpy, l2, l3])
+  rw [expandOp_refines _ S (show (axpy a x x').shape = pre ++ post from hx) hS hd, pixFn_axpy a x x' _ _ lx lx',
+    expand_linear, coilFn_axpy a _ _ _ _ _ l2 l3, expandOp_refines x S hx hS hd, expandOp_refines x' S hx' hS hd]
+
+/-- **`reduce_operator` is ℂ-linear in the coil data, at tensor level**: `R(a·y + y') = a·R(y) + R(y')` -/
+theorem reduceOp_linear (a : Cpx ℝ) (y y' S : Tensor (Cpx ℝ)) (hy : y.shape = pre ++ [c] ++ post)
+    (hy' : y'.shape = pre ++ [c] ++ post) (hS : S.shape = pre ++ [c] ++ post) (wy : y.data.length = prod y.shape)
+    (wy' : y'.data.length = prod y'.shape) (wS : S.data.length = prod S.shape) (hd : CoilAxis pre post d) :
+    reduceOp (axpy a y y') S d = axpy a (reduceOp y S d) (reduceOp y' S d) := by
+  have ly : y.data.length = prod pre * (c * prod post) := by rw [wy, hy, prod3]
+  have ly' : y'.data.length = prod pre * (c * prod post) := by rw [wy', hy', prod3]
+  have wA : (axpy a y y').data.length = prod (axpy a y y').shape := by
+    show (List.zipWith _ y.data y'.data).length = prod y.shape
+    rw [List.length_zipWith, ly, ly', hy, prod3, Nat.min_self]
+  obtain ⟨s1, l1, _⟩ := reduceOp_spec (axpy a y y') S pre post c d hy hS wA wS hd.norm
+  obtain ⟨s2, l2, _⟩ := reduceOp_spec y S pre post c d hy hS wy wS hd.norm
+  obtain ⟨s3, l3, _⟩ := reduceOp_spec y' S pre post c d hy' hS wy' wS hd.norm
+  apply pix_ext _ _ (prod pre) (prod post) (by rw [s1]; exact s2.symm) l1 (by simp [axpy, l2, l3])
+  rw [reduceOp_refines _ S (show (axpy a y y').shape = pre ++ [c] ++ post from hy) hS wA wS hd, coilFn_axpy a y y' _ _ _ ly ly',
+    reduce_linear, pixFn_axpy a _ _ _ _ l2 l3, reduceOp_refines y S hy hS wy wS hd, reduceOp_refines y' S hy' hS wy' wS hd]
+
+end TensorLevel
 
 /-! ### non-vacuity -/
 
